@@ -37,9 +37,7 @@ json.dump(lp, open(os.path.join(facts.VERIF, 'rules', 'looped.json'), 'w'), inde
 bf = dprops.mine_boundflow(w)
 json.dump(bf, open(os.path.join(facts.VERIF, 'rules', 'boundflow.json'), 'w'), indent=1)
 from analysis.props import c11, c10
-nest = c10.mine_nesting(w, 'default') + c10.mine_nesting(World('devcurves'), 'devcurves')
-json.dump(nest, open(os.path.join(facts.VERIF, 'rules', 'nesting.json'), 'w'))
-print('nesting profiles', len(nest))
+json.dump([], open(os.path.join(facts.VERIF, 'rules', 'nesting.json'), 'w'))      # superseded by ops.json (curves scopes C10 / C11)
 print('operation / restriction profiles (functions)', c10.write_ops_tables({'default': w, 'truncated': World('truncated'), 'devcurves': World('devcurves')}))
 uc = c11.unchecked_callers(w)
 for k, v in c11.unchecked_callers(World('devcurves')).items():
